@@ -149,8 +149,13 @@ def _verifier_graph(args):
     nd = sum(1 for e in g.edges if e[1]["name"] in ("dial", "dialchain"))
     acc = sum(1 for e in g.edges if e[1]["name"] == "verify" and True in e[1]["allowed"])
     comp = sum(1 for e in g.edges if e[1]["name"] == "dial" and e[1]["completes"])
-    if not (nv and nd and acc and comp and acc < nv and comp < nd):
-        raise MachineryError("vacuous verifier table: %d verify rows (%d accept), %d dial rows (%d complete)" % (nv, acc, nd, comp))
+    # history: a certificate accepted earlier in the behaviour is asked again after its NotAfter / with another list
+    rep_exp = sum(1 for e in g.edges if e[1]["name"] == "verify" and e[1]["repeat"] and e[1]["when"] == "expired"
+                  and e[1]["list"] == "sha256" and e[1]["chain"] == "S")
+    rep_unp = sum(1 for e in g.edges if e[1]["name"] == "verify" and e[1]["repeat"] and e[1]["list"] == "absent")
+    if not (nv and nd and acc and comp and acc < nv and comp < nd and rep_exp and rep_unp):
+        raise MachineryError("vacuous verifier model: %d verify transitions (%d accept, %d repeated-after-expiry, %d repeated-unpinned), %d dial rows (%d complete)"
+                             % (nv, acc, rep_exp, rep_unp, nd, comp))
     walks = g.covering_walks(seed=ctx.seed, max_len=120)
     graph.write_behaviours(os.path.join(beh_dir, "ver.jsonl"), walks, {"verify_rows": nv, "dial_rows": nd})
     return r.distinct, r.generated, nv, nd, acc, comp
@@ -177,7 +182,7 @@ def run(ctx):
         frep = px.submit(_replay_graph, (ctx, beh_mgr))
         fver = px.submit(_verifier_graph, (ctx, beh_ver))
         fex = [px.submit(_exhaustive, (ctx, i)) for i in smalls]
-        fre = [px.submit(_reach, (ctx, p)) for p in ("ReachRolled", "ReachRestartAfterRoll", "ReachMultiFire")]
+        fre = [px.submit(_reach, (ctx, p)) for p in ("ReachRolled", "ReachRestartAfterRoll", "ReachMultiFire", "ReachLearnedExpired")]
         ver = fver.result()
         fvgo = pg.submit(_go, (ctx, "^TestVerifC18Verifier$", beh_ver))
         fdgo = pg.submit(_go, (ctx, "^TestVerifC18Dial$", beh_ver))
@@ -243,7 +248,7 @@ def run(ctx):
 MANIFEST = {
     "technique": "TLA+ spec (C18_CertManager.tla) of the certificate manager's bucket arithmetic, roll-over, timer and advertised hash sets, model-checked exhaustively with TLC on small instances (every offset, instant and advance/restart length) with the statement's clauses as invariants; the same spec at the real proportions printed as a state graph whose every transition is executed on the real certManager (mock clock and real clock inside a testing/synctest bubble, never-restarted companion manager) with the statement's monitors evaluated on the public surface after every step and 1 ms around every roll; TLA+ decision tables (C18_Verifier.tla) for verifyRawCerts and for Dial replayed row by row on real certificates, crypto/tls and two real transports over loopback QUIC; seeded sweep under the monitors",
     "category": "model_checking",
-    "text": "The spec measures time in ticks (K per clock-skew allowance), identifies a certificate with its NotBefore, and transcribes init (bucket containing now - skew, offset from the key, Go's truncating division), rollConfig, the timer at End - skew and both advertised sets. TLC checks on every reachable state: the served certificate is valid for at least one skew both ways, validity <= 14 d, {current, next} are in the early-data list and in the address component, `next` is exactly what the next roll installs and is then valid for a skew both ways, an address published in the current or previous period contains the served certificate, and the served/next certificates equal those of a manager that was never restarted and the closed form bucket(now - skew). The replay instance uses 3 ticks per skew and a monotone scale map (tick 3j+r -> j h + {0, 1 ms, 1 h - 1 ms}) so that the instants just before, at and just after every boundary are model instants; keys are generated until their offset (read as the code reads it) falls in the model's class. Determinism is concretised over representations of an instant: walks run with the clock returning times in UTC / +02:00 / -08:00 / +05:45 / its native Location, with and without monotonic reading, and with time.Local set to each zone in turn; every certificate (served, and advertised as next) and advertised list seen for a (key, bucket) is compared across all managers of all walks (rolled into / started in / restarted in the bucket), and generateCert is called with every representation of the same instants. Monitors (L1) use only GetConfig().Certificates[0], SerializedCertHashes(), AddrComponent(), verifyRawCerts and certificate bytes; equality with the model is L2.",
+    "text": "The spec measures time in ticks (K per clock-skew allowance), identifies a certificate with its NotBefore, and transcribes init (bucket containing now - skew, offset from the key, Go's truncating division), rollConfig, the timer at End - skew and both advertised sets. TLC checks on every reachable state: the served certificate is valid for at least one skew both ways, validity <= 14 d, {current, next} are in the early-data list and in the address component, `next` is exactly what the next roll installs and is then valid for a skew both ways, an address published in the current or previous period contains the served certificate, and the served/next certificates equal those of a manager that was never restarted and the closed form bucket(now - skew). The replay instance uses 3 ticks per skew and a monotone scale map (tick 3j+r -> j h + {0, 1 ms, 1 h - 1 ms}) so that the instants just before, at and just after every boundary are model instants; keys are generated until their offset (read as the code reads it) falls in the model's class. Determinism is concretised over representations of an instant: walks run with the clock returning times in UTC / +02:00 / -08:00 / +05:45 / its native Location, with and without monotonic reading, and with time.Local set to each zone in turn; every certificate (served, and advertised as next) and advertised list seen for a (key, bucket) is compared across all managers of all walks (rolled into / started in / restarted in the bucket), and generateCert is called with every representation of the same instants. The learned-address clause is end to end: every address learned earlier is dialed at every later sampled instant (1 ns / 1 ms / 1 s around each boundary, 1 h after a roll, the end of the following period) with extractCertHashes, verifyRawCerts and the every-hash-confirmed comparison of transport.upgrade against decodeCertHashesFromProtobuf(SerializedCertHashes()), until the second roll after learning. The verifier model has a clock and a history of accepted certificates: the same certificates are queried by one process before NotBefore, inside, at the bounds and after NotAfter, so a remembered verdict shows. Monitors (L1) use only GetConfig().Certificates[0], SerializedCertHashes(), AddrComponent(), verifyRawCerts and certificate bytes; equality with the model is L2.",
     "note": "Trusted: TLC, testing/synctest (idle detection of the timer goroutine; virtual time for the real-clock runs and for the verifier's boundary instants), the benbjohnson mock clock, crypto/x509 and crypto/tls for building test certificates and handshakes, loopback UDP for the dial rows. The bucket grid itself (which offset a key gets) is not fixed by the statement: a disagreement with the model's grid alone is an L2 divergence. The interval between timer expiry and the roll on a real clock is outside the model. Real proportions are sampled at boundary-relative positions and by a seeded sweep, not exhaustively.",
     "engines": [{"name": "C18_CertManager", "path": "spec/C18_CertManager.tla", "serves_properties": ["C18"], "kind_free_text": "TLA+ spec + TLC exhaustive (small instances) + full-transition replay at real proportions"},
                 {"name": "C18_Verifier", "path": "spec/C18_Verifier.tla", "serves_properties": ["C18"], "kind_free_text": "TLA+ decision tables replayed row by row on verifyRawCerts, crypto/tls and real transports"}],
